@@ -116,6 +116,9 @@ def core_check(pid, props_mod, fail_pids, modes=('walk', 'boundary', 'pairs'), s
         # in the Buf / BufMut code is not covered by M1's no_ub
         # every M1 property: the vtable wiring / constants the model was written from (Cert/C01)
         vlib.standard_lean_phase(run, props_mod, 'BytesVerif.Cert.C01', ['BytesVerif.Lemmas.Core.Sound'] + list(extra_mods) + (['BytesVerif.Cert.C17'] if pid == 'C02' else []))
+        if pid == 'C01':
+            # the entry points M1 models: conversions, Clone, Drop, Deref, Extend, FromIterator, … of the two handle types
+            vlib.override_cert(run, ['Other'])
         if pid == 'C02':
             names17 = vlib.theorem_names('BytesVerif/Cert/C17.lean')
             res17 = vlib.lake_build(['BytesVerif.Cert.C17'])
